@@ -250,7 +250,7 @@ func runC12(c *eng.Ctx) {
 	c.Rule("PROV", lrcT+".BuildResultSet{receiver=hash(tags)}", func() {
 		f := c.Fn(lrcT + ".BuildResultSet")
 		var idx ssa.Value
-		for _, b := range f.Blocks {
+		for _, b := range eng.BlocksT(f) {
 			for _, in := range b.Instrs {
 				if ia, ok := in.(*ssa.IndexAddr); ok && strings.Contains(p.Desc(ia.X), "timeSeriesHashGroups") || false {
 					_ = ia
